@@ -44,7 +44,7 @@ SPEC = {
                     "declared values are valid UTF-8 (strings.TrimSpace modelled on code points)",
                     "the rule hash determines the declared hashes and the cache key determines the rule (C08 / C02 idealisation)",
                     "scratch filesystem supports user xattrs"],
-    "harness_timeout": 2400,
+    "harness_timeout": 3000,
 }
 MUTATIONS = """
 Dry-runs on a scratch copy (VERIF_REPO=/var/tmp/mC35 ./check C35 quick, known findings loaded); every mutation also changes a
